@@ -1,3 +1,5 @@
+import Hm.C13EndToEnd
+import Hm.C15Gzip
 import Hm.C05Conv
 import Hm.C07Resp
 import Hm.C10Req
@@ -102,3 +104,9 @@ import Hm.Statements
 #print axioms C05_complete_only_if_wellformed
 #print axioms Headers.parse_cut
 #print axioms chunkLoop_sound
+#print axioms C15_gzip_check
+#print axioms C13_inflate_stored_blocks
+#print axioms C13_inflateRaw_stored_blocks
+#print axioms C13_zlib_stored_blocks
+#print axioms C13_gzip_stored_blocks
+#print axioms C13_level0_stacks
